@@ -222,9 +222,17 @@ let p_op (toks : string list) : op =
   | ["iter_mut"; sc] -> OIterMut (p_script sc)
   | ["range_mut"; sb; eb; sc] -> ORangeMut (p_bound sb, p_bound eb, p_script sc)
   | ["into_iter"; sc] -> OIntoIter (p_script sc)
+  | ["iter_default"; sc] -> OIterDefault (p_script sc)
+  | ["iter_mut_default"; sc] -> OIterMutDefault (p_script sc)
+  | ["ref_into_iter"; sc] -> ORefIntoIter (p_script sc)
+  | ["iter_debug"; sb; eb; pre] -> OIterDebug (p_bound sb, p_bound eb, p_script pre)
+  | ["iter_mut_debug"; sb; eb; pre] -> OIterMutDebug (p_bound sb, p_bound eb, p_script pre)
+  | ["drain_debug"; sb; eb; pre] -> ODrainDebug (p_bound sb, p_bound eb, p_script pre)
+  | ["into_iter_debug"; pre] -> OIntoIterDebug (p_script pre)
   | ["to_vec"] -> OToVec | ["debug"] -> ODebug
   | ["new"] -> ONew
-  | ["default"] -> ONew          (* Default::default() is Self::new() *)
+  | ["default"] -> ODefault
+  | ["boxed"] -> OBoxed
   | ["from_array"; xs] -> OFromArray (p_elems xs)
   | ["from_iter"; xs] -> OFromIter (p_elems xs)
   | ["clone_drop"] -> OCloneDropClone | ["clone_keep"] -> OCloneKeepClone
